@@ -723,6 +723,10 @@ def gen_c15(rng, profile):
 def oracle_c15(ex, idx, op, out):
     if op["k"] != "agree" or out["s"] != "ok":
         return None
+    if ex.f3(op):
+        # the type still has an unresolved forward reference: mixin methods are
+        # postponed, codecs refuse to be built; agreement is about defined types
+        return None
     res = ex.last_raw
     if not isinstance(res, dict):
         return None
@@ -763,6 +767,8 @@ def gen_c20(rng, profile):
     from . import family as F
     kn = gen.gen_knobs(rng, profile)
     kn.setdefault("schema_omit", True)
+    if rng.random() < 0.5:
+        kn["field_ser"] = True
     kn.update({"threads": False, "aborts": False, "codecs": False, "fwd": False, "chunks": 1,
                "lazy": rng.choice(["none", "none", "mixed"])})
     if rng.random() < 0.5:
@@ -795,6 +801,16 @@ def gen_c20(rng, profile):
             "fields": [{"n": f"b{i}_{j}", "t": rng.choice([["cls", x], ["list", ["cls", x]],
                                                           ["opt", ["cls", x]]])}
                        for j, x in enumerate(refs)] + [{"n": f"b{i}_bad", "t": ["opaque"]}]})
+    ctx_calls = []
+    for _ in range(rng.randint(0, 4)):
+        call = {}
+        if rng.random() < 0.5:
+            call["dialect"] = rng.choice(["draft", "openapi"])
+        if rng.random() < 0.4:
+            call["all_refs"] = rng.random() < 0.7
+        if rng.random() < 0.25:
+            call["ref_prefix"] = rng.choice(["#/components/schemas", "#/defs"])
+        ctx_calls.append(call)
     nb = rng.randint(1, 2)
     builders = []
     for b in range(nb):
@@ -824,6 +840,8 @@ def gen_c20(rng, profile):
     for _ in range(rng.randint(3, 12)):
         b = rng.randrange(nb)
         if profile.get("batch") == "threads" and rng.random() < 0.35:
+            # builds only: reading the definitions while another thread is still
+            # registering them is not something the statement promises
             progs = [[{"k": "schema", "b": b, "params": builders[b], "what": "build",
                        "type": type_for()} for _ in range(rng.choice([1, 1, 2]))]
                      for _ in range(rng.randint(2, 3))]
@@ -831,6 +849,12 @@ def gen_c20(rng, profile):
                         "sseed": rng.getrandbits(32)})
             ops.append({"k": "schema", "b": b, "params": builders[b], "what": "defs", "noref": True})
             continue
+        if ctx_calls and rng.random() < 0.3:
+            t_ = type_for()
+            if not _mentions_bad(t_):
+                ops.append({"k": "schema", "what": "build_ctx", "ctx": 0,
+                            "call": rng.choice(ctx_calls), "type": t_})
+                continue
         if rng.random() < 0.15:
             ops.append({"k": "schema", "b": b, "params": builders[b], "what": "defs", "noref": True})
         else:
@@ -871,6 +895,11 @@ def _check_metaschema(doc):
 def oracle_c20(ex, idx, op, out):
     if op["k"] != "schema":
         return None
+    if op.get("what") == "build_ctx":
+        if out["s"] != "ok":
+            return {"class": "schema-build-crash:" + (out.get("e") or {}).get("type", out["s"]),
+                    "ref": None, "diff_at": None, "detail": "build_json_schema(context=...) crashed"}
+        return None  # compared with the same call on a fresh Context by the engine
     if ex.ops[idx]["k"] == "conc":
         # inside a concurrent batch only the per-call outcome is judged (against
         # the twin); builder-wide invariants are evaluated at the next event
@@ -881,6 +910,12 @@ def oracle_c20(ex, idx, op, out):
     st = getattr(ex.sut, "schema_state", None)
     if st is None:
         return None
+    if op.get("what") == "defs" and isinstance(st.get("defs_doc"), dict):
+        # what get_definitions() serialises is what the builder holds
+        for k_, v_ in st["defs_doc"].items():
+            if k_ in (st.get("after") or {}) and st["after"][k_] != v_:
+                return {"class": "definition-serialisation-differs", "ref": None, "diff_at": "/" + k_,
+                        "detail": {"get_definitions": v_, "context": st["after"][k_]}}
     if out["s"] != "ok":
         return {"class": "schema-build-crash:" + (out.get("e") or {}).get("type", out["s"]),
                 "ref": None, "diff_at": None,
